@@ -24,8 +24,11 @@ CONSTANTS
                   \*   jitter: "none" (Jitter -1) | "default" (unset -> 0.5) | "quarter" (0.25)
                   \*   body: "nil" | "nobody" | "getbody" | "nogetbody" | "failgetbody"
     Bodies,       \* response bodies a successful attempt may carry (token sequences)
-    Ends,         \* how a response body may end: subset of {"clean", "error", "cancel"}
-    Outcomes,     \* what an attempt may meet: subset of {"transport", "reject", "stream", "cancel_do"}
+    Ends,         \* how a response body may end: subset of {"clean", "error", "errctx", "cancel"}
+                  \*   "errctx": a read error that is a context error (a transport's own deadline) while the
+                  \*   request's context is alive - an ordinary, retryable read error
+    Outcomes,     \* what an attempt may meet: subset of {"transport", "transport_ctx", "reject", "stream", "cancel_do"}
+                  \*   "transport_ctx": Do fails with a deadline error that is not the request context's
     MaxAttempts,  \* scripted attempts per history; the attempt after the last one meets a cancelled context
     CancelInWait  \* TRUE: a cancellation may also arrive during a wait
 
@@ -94,7 +97,7 @@ Do(o, body, end) ==
           /\ o \in Outcomes
           /\ (o # "stream" => body = <<>> /\ end = "clean")
           /\ hist' = Append(hist, [o |-> o, body |-> body, end |-> end])
-          /\ CASE o = "transport" -> /\ curErr' = "transport" /\ pc' = "next" /\ UNCHANGED <<cur, result>>
+          /\ CASE o \in {"transport", "transport_ctx"} -> /\ curErr' = o /\ pc' = "next" /\ UNCHANGED <<cur, result>>
                [] o = "cancel_do" -> /\ Done(R("ctx")) /\ UNCHANGED <<cur, curErr>>
                [] o = "reject"    -> /\ Done(R("validator")) /\ UNCHANGED <<cur, curErr>>
                [] o = "stream"    -> /\ cur' = [body |-> body, end |-> end] /\ pc' = "read" /\ UNCHANGED <<curErr, result>>
@@ -122,7 +125,7 @@ Read ==
           /\ IF st.status = "cancelled" THEN Done(R("ctx")) /\ UNCHANGED curErr
              ELSE /\ curErr' = (CASE st.status = "eof" -> "eof"
                                   [] st.status = "unexpected_eof" -> "unexpected_eof"
-                                  [] st.status = "read_error" -> "boom")
+                                  [] st.status = "read_error" -> IF cur.end = "errctx" THEN "errctx" ELSE "boom")
                   /\ pc' = "next" /\ UNCHANGED result
     /\ everConnected' = TRUE
     /\ UNCHANGED <<cfg, isRetry, attempts, cur, reqs, waits, hist>>
@@ -172,7 +175,7 @@ Reason ==
       /\ (result.kind = "validator" => hist[Len(hist)].o = "reject")
       /\ (result.kind \in {"nogetbody", "getbodyerr"} => attempts >= 1 /\ cfg.body \in {"nogetbody", "failgetbody"})
       /\ (result.kind = "exhausted" =>
-            /\ result.err \in {"transport", "eof", "unexpected_eof", "boom"}
+            /\ result.err \in {"transport", "transport_ctx", "eof", "unexpected_eof", "boom", "errctx"}
             /\ (cfg.maxRetries < 0 \/ numRetries = cfg.maxRetries))
 \* C11: a permanent failure is never followed by another attempt; a retryable one always by BackoffNext
 NoRetryAfterPermanent == \A i \in 1..(Len(hist) - 1) : hist[i].o \notin {"reject", "cancel_do", "cancel_wait"}
